@@ -64,6 +64,47 @@ def run(ctx):
                     diff = [(k_, kinds.get(k_), dumped.get(k_)) for k_ in sorted(set(kinds) | set(dumped), key=lambda z: int(z) if z.isdigit() else 0) if kinds.get(k_) != dumped.get(k_)]
                     failing.append(dict(files=f, base=b, kind=tag, why="node %d %s: (register, kind of the fact, tag in the dump) differ: %s" % (i, fld, diff[:4])))
                     break
+            # every fact of the node, registers and memory: same key (the CSR / stack slot it is about), same kind, same numbers
+            # (the graph's facts are read through the library API - CSR numbers through their Debug text - not through serde)
+            def dump_items(txt):
+                out = []
+                for it in re.findall(r"i-?\d+|s[0-9.]+|s(?![0-9])", txt):
+                    out.append(int(it[1:]) if it[0] == "i" else lib.dec(it[1:]))
+                return tuple(out)
+
+            def dump_key(k_):
+                if k_[0] == "i":
+                    return ("reg", (int(k_[1:]),))
+                t_ = lib.dec(k_[1:])
+                return (re.match(r"[a-z]+", t_).group(0), tuple(int(z) for z in re.findall(r"[+-]?\d+", t_)))
+
+            def graph_key(k_):
+                if k_.lstrip("-").isdigit():
+                    return ("reg", (int(k_),))
+                parts = k_.split(":")
+                return (parts[0], tuple(int(z) for z in parts[1:]))
+
+            def graph_val(v_):
+                parts = v_.split(":")
+                if parts[0] in ("a", "m"):   # an address / the memory at a label: the label's name (encoded as character codes)
+                    return (parts[0], (lib.dec(parts[1]),) + tuple(int(z) for z in parts[2:]))
+                return (parts[0], tuple((int(z) if z.lstrip("-").isdigit() else lib.dec(z)) for z in parts[1:]))
+            bad_fact = None
+            for fld, facts in (("ri", g["nodes"][i].ri), ("ro", g["nodes"][i].ro), ("mi", g["nodes"][i].mi), ("mo", g["nodes"][i].mo)):
+                fm = re.search(r" %s=\{([^}]*)\}" % fld, node_txt)
+                dm = {}
+                for kv_ in (fm.group(1).split(";") if fm and fm.group(1) else []):
+                    k_, v_ = kv_.split("=", 1)
+                    dm[dump_key(k_)] = (v_.split("(")[0].lstrip("!"), dump_items(v_[v_.find("("):]))
+                gm = dict((graph_key(k_), graph_val(v_)) for k_, v_ in facts.items())
+                if dm != gm:
+                    only_d = sorted(set(dm.items()) - set(gm.items()), key=repr)[:3]
+                    only_g = sorted(set(gm.items()) - set(dm.items()), key=repr)[:3]
+                    bad_fact = "node %d %s: the dump and the analysed facts differ: only in the dump %s / only in the graph %s" % (i, fld, only_d, only_g)
+                    break
+            if bad_fact:
+                failing.append(dict(files=f, base=b, kind=tag, why=bad_fact))
+                break
             want = sorted((g["funcs"][fid]["entry"], g["funcs"][fid]["exit"]) for fid in g["nodes"][i].funcs if fid < len(g["funcs"]))
             if len(e) != len(x) or sorted(zip(e, x)) != want:
                 failing.append(dict(files=f, base=b, kind=tag, why="node %d: the dump pairs entries %s with exits %s, its functions are (entry, exit) = %s" % (i, e, x, want)))
